@@ -38,17 +38,26 @@ func genContFile(c *core.Ctx, i int, codecIdx int, maxRecs int) *contFile {
 	codec := []string{"null", "deflate", "snappy", ""}[codecIdx%4]
 	cf := &contFile{}
 	if i%2 == 0 {
-		ds := gen.GenDataSchema(r, gen.DataOpts{MaxDepth: 1 + r.IntN(3), NoZeroWidth: true})
+		depth := 1 + r.IntN(3)
+		if maxRecs >= 64 {
+			depth = 1
+		}
+		ds := gen.GenDataSchema(r, gen.DataOpts{MaxDepth: depth, NoZeroWidth: true})
 		cf.t = ds.Target(r, ds.S, gen.TargetOpts{Canonical: true})
 		cf.schema = ds.S
 		n := 1 + r.IntN(maxRecs)
+		nb := 1 + r.IntN(6)
+		if maxRecs >= 64 {
+			// blocks whose record count needs a two-byte varint
+			n = 64 + r.IntN(maxRecs)
+			nb = 1 + r.IntN(2)
+		}
 		var recs []any
 		for k := 0; k < n; k++ {
 			recs = append(recs, ds.GenDatum(r, ds.S, gen.DatumOpts{MaxElems: 3}, nil))
 		}
 		var blocks [][]any
 		rest := recs
-		nb := 1 + r.IntN(6)
 		for b := 0; b < nb && len(rest) > 0; b++ {
 			k := 1 + r.IntN(len(rest))
 			if b == nb-1 {
@@ -325,6 +334,17 @@ func runC07(c *core.Ctx, i int) {
 			}
 		}
 	}
+	// 4b. a block that declares one record more than its payload holds
+	for bi, b := range cont.Blocks {
+		d := &refavro.Decoder{B: cf.file, I: b.Start, Rec: true}
+		d.Decode(&refavro.Schema{Type: "long"})
+		if len(d.Sites) == 1 {
+			mut := mutateSite(cf.file, d.Sites[0], refavro.AppendLong(nil, b.Count+1))
+			if !cf.mustFail(c, mut, fmt.Sprintf("block %d declares %d records but holds %d", bi, b.Count+1, b.Count), "over-declared-count") {
+				return
+			}
+		}
+	}
 	// 5. header variants
 	schemaJSON := string(cont.SchemaJSON)
 	var counts []int64
@@ -351,7 +371,18 @@ func runC07(c *core.Ctx, i int) {
 	}
 	// 6. callback failure at every record index
 	for k := range want {
-		sentinel := fmt.Errorf("sentinel-%d-%d", i, k)
+		var sentinel error
+		switch (i + k) % 5 {
+		case 0, 1:
+			sentinel = fmt.Errorf("sentinel-%d-%d", i, k)
+		case 2:
+			sentinel = io.EOF // any error value, including the ones the reader itself gives a meaning to
+		case 3:
+			sentinel = fmt.Errorf("callback gave up: %w", io.EOF)
+		default:
+			sentinel = io.ErrUnexpectedEOF
+		}
+		c.Count(fmt.Sprintf("faults.callback-kind%d", (i+k)%5), 1)
 		o := readCollect(bytes.NewReader(cf.file), rt, k, sentinel)
 		c.Eval(1)
 		c.Count("faults.callback", 1)
@@ -408,9 +439,23 @@ func (r *eofTogetherReader) Read(p []byte) (int, error) {
 }
 
 func runC08(c *core.Ctx, i int) {
-	cf := genContFile(c, i, i/2, 10)
+	maxRecs := 10
+	if i%8 == 6 {
+		maxRecs = 100 // 64..163 records: two-byte count varints
+	}
+	cf := genContFile(c, i, i/2, maxRecs)
 	if cf == nil {
 		return
+	}
+	if cf.cont != nil {
+		for _, b := range cf.cont.Blocks {
+			if b.Count >= 64 {
+				c.Count("blocks-with-two-byte-count", 1)
+			}
+			if b.PayloadEnd-b.PayloadOff >= 8192 {
+				c.Count("blocks-with-three-byte-size", 1)
+			}
+		}
 	}
 	// a variant with zero blocks now and then
 	if i%11 == 10 {
@@ -539,7 +584,7 @@ func init() {
 			if a.C("max.classes-per-file") < 8 {
 				u = append(u, fmt.Sprintf("max outcome classes per file %d < 8", a.C("max.classes-per-file")))
 			}
-			for _, k := range []string{"files.codec.null", "files.codec.deflate", "files.codec.snappy", "files.reference-writer", "files.library-encoder", "multiblock-files"} {
+			for _, k := range []string{"files.codec.null", "files.codec.deflate", "files.codec.snappy", "files.reference-writer", "files.library-encoder", "multiblock-files", "blocks-with-two-byte-count"} {
 				if a.C(k) < 4 {
 					u = append(u, fmt.Sprintf("%s=%d < 4", k, a.C(k)))
 				}
